@@ -471,7 +471,9 @@ pub fn c10_numeric(m: &mut EM, rng: &mut Rng, thorough: bool) {
         let s = format!("{word} {x} {name}");
         // which sentences must parse and have a pinned value: SEC in every non-dynamical scale; JD and MJD in
         // TAI, UTC, TT (the scales that count from 1900-01-01); the rest is only required not to panic
-        let must = !dynamic && (kind == 2 || ts == TimeScale::TAI || ts == TimeScale::UTC || ts == TimeScale::TT);
+        // (SEC in ET/TDB is the plain count past J2000 in that scale - no approximation involved - so it is pinned too;
+        // JD/MJD in ET/TDB are documented as approximate and only required not to panic)
+        let must = kind == 2 || (!dynamic && (ts == TimeScale::TAI || ts == TimeScale::UTC || ts == TimeScale::TT));
         let owned = s.clone();
         let r = with_deadline(DEADLINE_S, move || Epoch::from_str(&owned).map_err(|_| ()));
         let res = match &r {
